@@ -40,7 +40,9 @@ RESERVED = {"and", "or", "not", "to", "lt", "le", "eq", "ne", "ge", "gt", "segme
     {x for d in (BOOL, NUMK, STRK) for v in d.values() for x in v}
 # pinned from the documentation of the keywords (docs/atom_selection.rst) and the PDB conventions they refer to
 PROTEIN = {"ALA": "A", "ARG": "R", "ASN": "N", "ASP": "D", "CYS": "C", "GLN": "Q", "GLU": "E", "GLY": "G", "HIS": "H", "ILE": "I", "LEU": "L",
-           "LYS": "K", "MET": "M", "PHE": "F", "PRO": "P", "SER": "S", "THR": "T", "TRP": "W", "TYR": "Y", "VAL": "V"}
+           "LYS": "K", "MET": "M", "PHE": "F", "PRO": "P", "SER": "S", "THR": "T", "TRP": "W", "TYR": "Y", "VAL": "V",
+           # the capping groups of a peptide chain are protein residues without a one-letter code
+           "ACE": None, "NME": None}
 WATER = {"HOH", "H2O", "WAT", "TIP3", "TIP4", "SOL"}
 BACKBONE = {"N", "CA", "C", "O"}
 AMBIGUOUS_BB = {"H", "HA", "HA2", "HA3", "H1", "H2", "H3", "OXT", "HXT"}
@@ -58,6 +60,17 @@ def topology():
         # a nucleotide-like residue whose atom names carry primes and a star (only expressible as quoted literals), next to
         # the unprimed names they must not be confused with
         from mdtraj.core import element as _el
+        ch = top.add_chain()
+        prev = None
+        for rn, rs, atoms_ in (("ACE", 801, (("HH31", _el.hydrogen), ("CH3", _el.carbon), ("HH32", _el.hydrogen), ("C", _el.carbon), ("O", _el.oxygen))),
+                               ("ALA", 802, (("N", _el.nitrogen), ("CA", _el.carbon), ("CB", _el.carbon), ("C", _el.carbon), ("O", _el.oxygen))),
+                               ("NME", 803, (("N", _el.nitrogen), ("CH3", _el.carbon), ("HH31", _el.hydrogen), ("HH32", _el.hydrogen)))):
+            r = top.add_residue(rn, ch, resSeq=rs)      # a capped peptide (alanine dipeptide)
+            for nm, e in atoms_:
+                a = top.add_atom(nm, e, r)
+                if prev is not None:
+                    top.add_bond(prev, a)
+                prev = a
         ch = top.add_chain()
         for rn, rs in (("G", 901), ("DA5", 902)):
             r = top.add_residue(rn, ch, resSeq=rs)
